@@ -13,11 +13,11 @@ PROP = 'C14'
 TRACE_MODULE = 'C14Trace.tla'
 RULE = ('every bundled constructor whose field types are in {int, long, #, Bool, int128, int256, string, bytes, true, (vector T), bare and '
         'boxed object types} (transitively): a base value, every flag combination (<= 64), string/bytes lengths {0..4, 252..257, 65536} on '
-        'each string/bytes field, vector lengths {0, 1, 3}, each alternative of every polymorphic field, random values; boxed serialisation, '
+        'each string/bytes field, vector lengths {0, 1, 3}, each alternative of every polymorphic field, boxed objects carried in bytes fields, the smallest encodings, random values; malformed nested input interleaved on the same schemas object; boxed serialisation, '
         'parse back; BlockIdExt helpers on boundary values; distinct = distinct (constructor, emitted bytes)')
 ASSUMPTIONS = ['the schema-as-data reader (tlkit) is untrusted: TLC re-renders every constructor to its declaration text and recomputes the '
                'constructor id (CRC-32/IEEE of the declaration without ;()) itself', 'well-typed value: optional field present iff its flag bit '
-               'is set; int128/int256 as hex strings; # is an unsigned 32-bit natural; text strings are UTF-8 (ASCII and multi-byte characters); bytes values are not themselves boxed TL objects',
+               'is set; int128/int256 as hex strings; # is an unsigned 32-bit natural; text strings are UTF-8 (ASCII and multi-byte characters, also texts that begin with the bytes of a constructor id); a bytes value is raw bytes that do not begin with a known constructor id, or boxed TL objects (one or several) which the parser hands back as objects (except in the two fields the library documents as untouched)',
                'library dicts are converted to the specification\'s value shape by tlkit.to_spec (glue); comparison is done by TLC']
 V_ENV = {}
 
@@ -25,6 +25,24 @@ V_ENV = {}
 def model_checks(tier):
     return [dict(name='tl_m', module='MC_TL.tla', workers=8, timeout=900,
                  cfg='INIT Init\nNEXT Next\nINVARIANT Injective\nINVARIANT PrefixFree\nCHECK_DEADLOCK FALSE\n')]
+
+
+UNTOUCHED = {'adnl.message.part': {'data'}, 'overlay.broadcastFec': {'data'}}    # fields the library documents as never auto-parsed
+
+
+def hostile(tl, out, rng, payloads, names):
+    """malformed input fed to the SAME long-lived schemas object between the round trips (no expectation on these calls themselves:
+    what is demanded is that the round trips around them are unaffected - results are a function of the input, not of history)"""
+    outer = tl.get_by_name('adnl.message.query')
+    for pl in rng.sample(payloads, min(len(payloads), 7)):
+        rec = {'op': 'tl_hostile', 'bytes': list(pl)}
+        try:
+            data = tl.serialize(outer, {'query_id': '11' * 32, 'query': pl}, boxed=True)
+            tl.deserialize(data)
+            rec['out'] = {'ok': 1}
+        except Exception as e:
+            rec['out'] = {'err': type(e).__name__}
+        out.append(rec)
 
 
 class Timeout(Exception):
@@ -48,7 +66,7 @@ def one(tl, db, name, d, boxed=True):
 def _one(tl, db, name, d, boxed=True):
     rec = {'op': 'tl', 'c': name, 'boxed': int(boxed), 'v': tlkit.to_spec(db, name, d)}
     try:
-        data = tl.serialize(tl.get_by_name(name), d, boxed=boxed)
+        data = tl.serialize(tl.get_by_name(name), tlkit.lib_value(tl, d), boxed=boxed)
         rec['out'] = {'bytes': list(data)}
     except Exception as e:
         rec['out'] = {'err': type(e).__name__}
@@ -79,6 +97,17 @@ def generate(tier, seed, ctx):
     out = []
     names = [e['name'] for e in db.values() if e['ok']]
     longs = []                                   # (constructor, string/bytes field) pairs
+    # constructor ids whose four little-endian bytes are text
+    idtexts = []
+    for sch in tl.list:
+        try:
+            idtexts.append(bytes(sch.id[::-1]).decode('utf-8'))
+        except Exception:
+            pass
+    idtexts = sorted(set(idtexts)) or ['abcd']
+    # payloads that fail INSIDE a nested parse: a constructor whose first field is a vector, announcing elements that are not there
+    hostile_payloads = [bytes(tl.get_by_name(n).id[::-1]) + (3).to_bytes(4, 'little') for n in names
+                        if db[n]['fields'] and db[n]['fields'][0]['t']['k'] == 'vector' and not db[n]['fields'][0]['c']][:12]
     for name in names:
         e = db[name]
         sch = tl.get_by_name(name)
@@ -110,9 +139,22 @@ def generate(tier, seed, ctx):
                     # multi-byte text at the 253/254-byte boundary and in the long form (characters != bytes)
                     for txt in ('h\u00e9llo', '\u00e9' * 126 + 'a', '\u00e9' * 127, '\u20ac' * 100, '\U0001d11e' * 63 + 'ab'):
                         vals.append(g.ctor(name, hints={f['n']: txt}))
+                if k == 'bytes' and f['n'] not in UNTOUCHED.get(name, ()) and rng.random() < (0.4 if q else 1.0):
+                    # the field carries boxed objects (one; several, concatenated), which the parser hands back as objects
+                    for nest in (1, 2, 3):
+                        vals.append(g.ctor(name, hints={f['n']: {'nest': nest}}))
+                if k == 'string' and rng.random() < (0.3 if q else 1.0):
+                    # a text is a text whatever it starts with - also the four bytes of a constructor id
+                    for idt in rng.sample(idtexts, 2 if q else 8):
+                        vals.append(g.ctor(name, hints={f['n']: idt + rng.choice(['', ' ok', '\u00e9', 'x' * 300])}))
             elif k == 'vector':
                 for n in (0, 1, 3):
                     vals.append(g.ctor(name, hints={f['n']: n}))
+                # the smallest encodings: every optional part absent, every string empty, 1 and 2 elements
+                g.minimal = True
+                for n in (1, 2):
+                    vals.append(g.ctor(name, hints={f['n']: n}))
+                g.minimal = False
             elif k == 'boxed' and not q:
                 for alt in g.alts[f['t']['cls']][:6]:
                     v = g.ctor(name)
@@ -120,6 +162,11 @@ def generate(tier, seed, ctx):
                     vals.append(v)
         for _ in range(0 if q else 6):
             vals.append(g.ctor(name))
+        g.minimal = True
+        vals.append(g.ctor(name))
+        g.minimal = False
+        if len(out) % 40 < 3:
+            hostile(tl, out, rng, hostile_payloads, names)
         for d in vals:
             out.append(one(tl, db, name, d, boxed=True))
         if rng.random() < 0.2:
